@@ -138,11 +138,19 @@ func init() {
 		}
 		e.remoteServed = 0
 		e.remoteRequests = nil
+		e.remoteLog = nil
 		return "http://remote.invalid/datasets/r/changes"
 	})
 	H("RemoteRequests", func(fr *frame, args []value) value {
 		out := []value{}
 		for _, r := range fr.i.path.env.remoteRequests {
+			out = append(out, r)
+		}
+		return out
+	})
+	H("RemoteLog", func(fr *frame, args []value) value {
+		out := []value{}
+		for _, r := range fr.i.path.env.remoteLog {
 			out = append(out, r)
 		}
 		return out
